@@ -175,6 +175,8 @@ def oracle(case, lines, extrabuf=65536, cheap=8):
             return (i, "after %r the readable content differs from the FIFO content (%d bytes)" % (op, r))
         if unchanged and (r, w, p) != (r_prev, w_prev, p_prev):
             return (i, "observer / failed read %r changed the sizes: r,w,p %s -> %s" % (op, (r_prev, w_prev, p_prev), (r, w, p)))
+        if k == "SH" and (w < int(t[1]) or p != cheap):
+            return (i, "shrink(%s) left writableBytes=%d prependableBytes=%d" % (t[1], w, p))
         if k == "EW" and w < int(t[1]):
             return (i, "ensureWritableBytes(%s) left writableBytes=%d" % (t[1], w))
         if not prep[0] and p < cheap:
